@@ -88,16 +88,22 @@ def seq_classes(formulas):
             a = parent[a]
         return a
 
+    members = {}
+
     def top(f):
-        if z3.is_app(f) and f.decl().kind() == z3.Z3_OP_AND:
+        # equalities anywhere in the boolean structure: merging classes only widens the candidate index terms
+        if z3.is_app(f) and f.decl().kind() in (z3.Z3_OP_AND, z3.Z3_OP_OR, z3.Z3_OP_IMPLIES, z3.Z3_OP_NOT):
             for c in f.children():
                 top(c)
         elif z3.is_app(f) and f.decl().kind() == z3.Z3_OP_EQ and z3.is_seq(f.arg(0)):
+            members[f.arg(0).get_id()] = f.arg(0)
+            members[f.arg(1).get_id()] = f.arg(1)
             a, b = find(f.arg(0).get_id()), find(f.arg(1).get_id())
             if a != b:
                 parent[a] = b
     for f in formulas:
         top(f)
+    find.members = members
     return find
 
 
@@ -187,51 +193,67 @@ def has_quant(t):
 def prepare_query(reg: Registry, hyps, goal, extra_terms=(), level=0):
     """Return (ground hypotheses, ground goal).  level 0: quantified hypotheses, map/split facts and fold
     definitions are instantiated; level 1 additionally instantiates the character-class run facts
-    (forall-parts of lead/trail/has) at the index terms."""
+    (forall-parts of lead/trail/has) at the index terms.
+
+    Instantiation is E-matching-lite: a quantified fact whose body indexes sequence S with its bound variable is
+    instantiated at the index terms used with S (or a sequence asserted equal to S) in the ground part of the
+    query, plus the skolem constants of the goal.  Instances, structural sequence lemmas and fold unfoldings create
+    new ground terms, so the process is iterated (INST_ROUNDS)."""
     hy = [h for _, h in hyps]
-    # 1. skolemise the goal (negated goal is asserted)
     sk = []
     g = goal
     if has_quant(g):
-        g = z3.Not(elim_quant(z3.Not(g), True, [], sk))  # first pass with no instances: only skolemises
-        # (forall in the goal becomes a skolem constant; an exists in the goal would need instances: handled below)
-    idx = index_terms(hy + [g]) + list(sk) + list(extra_terms)
-    idx += [ival(0)]
-    usage = nth_usage([h for h in hy if not has_quant(h)] + [g])
-    find = seq_classes(hy)
-    by_class = {}
-    for sid, terms in usage.items():
-        by_class.setdefault(find(sid), []).extend(terms)
+        g = z3.Not(elim_quant(z3.Not(g), True, [], sk))     # skolemises the universally quantified goal parts
+    qhyps = [h for h in hy if has_quant(h)]
+    ground0 = [h for h in hy if not has_quant(h)]
+    derived = []            # instances, lemmas, unfoldings (deduplicated by term id)
+    derived_ids = set()
+    done_fold = set()
+    lemma_done = set()
 
-    def select(q):
-        """E-matching-lite: instantiate a quantifier at the index terms used with the sequences its body indexes."""
-        pats = quant_patterns(q)
-        if not pats:
-            return idx
-        out, ids = [], set()
-        for p in pats:
-            for t in by_class.get(find(p), []):
-                if t.get_id() not in ids:
+    def add(t):
+        if t.get_id() not in derived_ids:
+            derived_ids.add(t.get_id())
+            derived.append(t)
+            return True
+        return False
+
+    qgoal = has_quant(g)
+    for rnd in range(INST_ROUNDS):
+        base = ground0 + derived + ([g] if not qgoal else [])
+        idx = index_terms(base + ([g] if qgoal else [])) + [t for t in sk if t.sort() == INT] + list(extra_terms) + [ival(0)]
+        usage = nth_usage(base)
+        find = seq_classes(ground0 + derived)
+        by_class = {}
+        for sid, terms in usage.items():
+            by_class.setdefault(find(sid), []).extend(terms)
+
+        def select(q):
+            pats = quant_patterns(q)
+            if not pats:
+                return idx
+            out, ids = [], set()
+            for p in pats:
+                for t in by_class.get(find(p), []):
+                    if t.get_id() not in ids:
+                        ids.add(t.get_id())
+                        out.append(t)
+            for t in list(sk) + list(extra_terms):
+                if t.sort() == INT and t.get_id() not in ids:
                     ids.add(t.get_id())
                     out.append(t)
-        for t in list(sk) + list(extra_terms):
-            if t.sort() == INT and t.get_id() not in ids:
-                ids.add(t.get_id())
-                out.append(t)
-        return out
-    # 2. instantiate quantified hypotheses and registered facts, two rounds
-    ground = []
-    for h in hy:
-        if has_quant(h):
-            ground.append(elim_quant(h, True, select, sk))
-        else:
-            ground.append(h)
-    if has_quant(g):
-        g = z3.Not(elim_quant(z3.Not(g), True, select, sk))
-    ids = subterm_ids(ground + [g])
-    facts = []
-    for rnd in range(2):
-        new = []
+            return out[:80]
+
+        changed = False
+        for h in qhyps:
+            inst = elim_quant(h, True, select, sk)
+            changed |= add(inst)
+        if qgoal:
+            g2 = z3.Not(elim_quant(z3.Not(g), True, select, sk))
+            if not has_quant(g2):
+                g, qgoal = g2, False
+                changed = True
+        ids = subterm_ids(base + [g])
         for qf in reg.qfacts:
             if level == 0 and type(qf).__name__.startswith("RunFact"):
                 continue
@@ -243,7 +265,7 @@ def prepare_query(reg: Registry, hyps, goal, extra_terms=(), level=0):
             if anchor.get_id() not in ids:
                 continue
             cands = idx
-            if type(qf).__name__ == "MapFact":
+            if type(qf).__name__ in ("MapFact", "RevFact"):
                 cands, cids = [], set()
                 for sid in (qf.mt.get_id(), qf.seq.get_id()):
                     for t in by_class.get(find(sid), []) + usage.get(sid, []):
@@ -254,46 +276,42 @@ def prepare_query(reg: Registry, hyps, goal, extra_terms=(), level=0):
                     if t.sort() == INT and t.get_id() not in cids:
                         cids.add(t.get_id())
                         cands.append(t)
-            for j in cands:
-                new.append(qf.instance(j))
-        facts = new
-        if rnd == 0:
-            more = index_terms(facts)
-            known = {t.get_id() for t in idx}
-            add = [t for t in more if t.get_id() not in known]
-            if not add:
-                break
-            idx = idx + add[:40]
-    # 2b. structural lemmas: nth over concat / unit / extract, for the nth terms of the query
-    facts = facts + seq_lemmas(ground + facts + [g])
-    # 3. unfold fold definitions at their applications (two rounds)
-    unf = []
-    if reg.fold_defs:
-        done = set()
-        frontier = ground + facts + [g]
-        for rnd in range(FOLD_UNFOLD_ROUNDS):
-            apps = fold_apps(reg, frontier)
-            new = []
-            for a in apps:
-                if a.get_id() in done:
+            for j in cands[:80]:
+                changed |= add(qf.instance(j))
+        for lem in seq_lemmas(ground0 + derived + [g], lemma_done):
+            changed |= add(lem)
+        # structured members (concat / extract / unit) of a class get the lemmas for every index used with the class
+        for mid, m in find.members.items():
+            if z3.is_app(m) and m.decl().kind() in (z3.Z3_OP_SEQ_CONCAT, z3.Z3_OP_SEQ_EXTRACT, z3.Z3_OP_SEQ_UNIT):
+                for k in by_class.get(find(mid), [])[:40]:
+                    for lem in seq_lemmas([m[k]], lemma_done):
+                        changed |= add(lem)
+        if reg.fold_defs:
+            for a in fold_apps(reg, ground0 + derived + [g]):
+                if a.get_id() in done_fold:
                     continue
-                done.add(a.get_id())
-                new.append(z3.simplify(reg.fold_defs[a.decl().name()].unfold(a)))
-            if not new:
-                break
-            unf.extend(new)
-            frontier = new
-    return ground + facts + unf, g
+                if rnd >= FOLD_UNFOLD_ROUNDS:
+                    continue
+                done_fold.add(a.get_id())
+                changed |= add(z3.simplify(reg.fold_defs[a.decl().name()].unfold(a)))
+        if not changed:
+            break
+    if qgoal:
+        g = z3.Not(elim_quant(z3.Not(g), True, select, sk))
+    return ground0 + derived, g
 
 
+INST_ROUNDS = 4
 FOLD_UNFOLD_ROUNDS = 3
 QUICK_ATTEMPT_MS = int(os.environ.get('PYVC_QUICK_MS', '10000'))
 
 
-def seq_lemmas(formulas):
+def seq_lemmas(formulas, done=None):
     """nth(concat(a, b..), k) / nth(unit(c), 0) / nth(extract(s, a, l), k): valid facts of the theory of sequences
     that the solvers do not derive reliably on their own (measured, DESIGN 3.4)."""
-    seen, out, done = set(), [], set()
+    seen, out = set(), []
+    if done is None:
+        done = set()
 
     def lemma_for(base, k):
         if not z3.is_app(base):
@@ -355,7 +373,7 @@ class FunctionVerifier:
     def __init__(self, prog: Program, reg: Registry, qualname: str):
         self.prog, self.reg, self.qual = prog, reg, qualname
         self.contract: Contract = reg.contracts[qualname]
-        self.fi = prog.func(qualname)
+        self.fi = prog.func(qualname.split("@")[0])
 
     def variants(self):
         c = self.contract
@@ -366,7 +384,8 @@ class FunctionVerifier:
         obligations = []
         info = {"function": self.qual, "variants": 0, "paths": 0, "assumptions": []}
         for vi, var in enumerate(self.variants()):
-            ex = Executor(self.prog, self.reg, self.qual)
+            ex = Executor(self.prog, self.reg, self.qual.split("@")[0])
+            ex.contract_name = self.qual
             obs = self.run_variant(ex, var, vi)
             obligations.extend(obs)
             info["variants"] += 1
@@ -453,7 +472,7 @@ class FunctionVerifier:
         # raise clauses with a condition: on a normal return the condition must be false
         for rc in c.raises:
             if rc.when is not None:
-                w = ex.truth(s, self.reg.spec_eval(ex, s, rc.when, self.reg.lambda_env(rc.when, env), pre_heap=pre_heap))
+                w = ex.truth(s, self.reg.spec_eval(ex, _with_heap(s, pre_heap), rc.when, self.reg.lambda_env(rc.when, env)))
                 ex.oblige(s, f"post[must-raise:{rc.exc}]", z3.Not(w), kind="post", serves=rc.serves,
                           clause="raises:" + rc.exc, assume_after=False)
         self.check_frame(ex, s, env, pre_heap, vtag)
@@ -469,8 +488,12 @@ class FunctionVerifier:
         rc = matching[0]
         xenv = dict(env)
         xenv["exc"] = exc
+        if rc.only_if is not None:
+            w = ex.truth(s, self.reg.spec_eval(ex, _with_heap(s, pre_heap), rc.only_if, self.reg.lambda_env(rc.only_if, env)))
+            ex.oblige(s, f"xpost[{rc.exc}:only-if]", w, kind="xpost", serves=rc.serves, clause="raises:" + rc.exc,
+                      assume_after=False)
         if rc.when is not None:
-            w = ex.truth(s, self.reg.spec_eval(ex, s, rc.when, self.reg.lambda_env(rc.when, env), pre_heap=pre_heap))
+            w = ex.truth(s, self.reg.spec_eval(ex, _with_heap(s, pre_heap), rc.when, self.reg.lambda_env(rc.when, env)))
             ex.oblige(s, f"xpost[{rc.exc}:when]", w, kind="xpost", serves=rc.serves, clause="raises:" + rc.exc,
                       assume_after=False)
         for cl in rc.ensures:
@@ -652,6 +675,8 @@ def verify_function(prog: Program, reg: Registry, qualname: str, only_serves=Non
     t0 = time.time()
     try:
         fv = FunctionVerifier(prog, reg, qualname)
+        if fv.contract.bounded_only:
+            raise EngineUnsupported("proof not attempted (bounded stand-in only): " + fv.contract.bounded_only)
         rep["fingerprint"] = fv.fi.fingerprint()
         rep["file"] = os.path.relpath(fv.fi.path, prog.repo)
         rep["line"] = fv.fi.node.lineno
